@@ -172,6 +172,10 @@ func cmdObls(repo, filter string) int {
 		}
 	}
 	work := filepath.Join(verifDir, ".work", "smt", "dev")
+	if os.Getenv("GOVC_SCRATCH") != "" {
+		// a run against a scratch tree keeps its files there (several may run at once)
+		work = filepath.Join(repo, ".govc", "smt", "dev")
+	}
 	_ = os.RemoveAll(work)
 	t0 := time.Now()
 	solveAll(sel, work, "quick", 0)
@@ -257,7 +261,7 @@ func loadFindings() *KnownFindings {
 func (kf *KnownFindings) lookup(prop, obl string) *Finding {
 	for i := range kf.Findings {
 		f := &kf.Findings[i]
-		if f.Obligation != obl {
+		if f.Obligation != obl && f.Obligation != rootedName(obl) {
 			continue
 		}
 		if f.Property == prop || f.Property == "" {
@@ -270,6 +274,24 @@ func (kf *KnownFindings) lookup(prop, obl string) *Finding {
 		}
 	}
 	return nil
+}
+
+// rootedName: the name an obligation raised inside an inlined helper ("label@helper->site~root") would have had if
+// the statement stood in the root function itself ("label@root->site"): a finding listed for a call site stays the
+// same finding when that call is moved into a helper of the same function.
+func rootedName(obl string) string {
+	i := strings.LastIndex(obl, "~")
+	at := strings.Index(obl, "@")
+	if i < 0 || at < 0 || at > i {
+		return obl
+	}
+	root := obl[i+1:]
+	rest := obl[at+1 : i]
+	site := ""
+	if j := strings.Index(rest, "->"); j >= 0 {
+		site = rest[j:]
+	}
+	return obl[:at+1] + root + site
 }
 
 // ---------------------------------------------------------------- check
@@ -574,26 +596,26 @@ func writeEvidence(rd *runData, prop, tier string, seed int, sel, discharged, kn
 		"wall_s":      wall,
 		"violations":  len(violations),
 		"coverage": map[string]interface{}{
-			"obligations":                len(sel) - len(known),
-			"discharged":                 len(discharged),
-			"checker_cmd":                fmt.Sprintf("./check %s %s", prop, tier),
-			"trusted_base":               trustedBase,
-			"samples":                    samples,
-			"functions_under_contract":   fns,
-			"helpers_decided_at_call_sites": rd.eng.inlineOnly,
+			"obligations":                           len(sel) - len(known),
+			"discharged":                            len(discharged),
+			"checker_cmd":                           fmt.Sprintf("./check %s %s", prop, tier),
+			"trusted_base":                          trustedBase,
+			"samples":                               samples,
+			"functions_under_contract":              fns,
+			"helpers_decided_at_call_sites":         rd.eng.inlineOnly,
 			"contracts_following_renamed_functions": rd.eng.renamedNotes,
-			"per_obligation":             recs,
-			"backends":                   backends,
-			"solver_time_s":              float64(solverMs) / 1000,
-			"solve_wall_s":               solveSecs,
-			"load_ssa_s":                 rd.eng.loadSecs,
-			"known_finding_obligations":  knownNames,
-			"violating_obligations":      violNames,
-			"vacuity":                    map[string]int{"cover_points": coversTotal, "satisfiable": coversReached},
-			"engine_notes":               notes,
-			"total_obligations_all_props": len(rd.obls),
-			"contract_file":              rd.eng.cs.Path,
-			"contract_lines":             rd.eng.cs.NLines,
+			"per_obligation":                        recs,
+			"backends":                              backends,
+			"solver_time_s":                         float64(solverMs) / 1000,
+			"solve_wall_s":                          solveSecs,
+			"load_ssa_s":                            rd.eng.loadSecs,
+			"known_finding_obligations":             knownNames,
+			"violating_obligations":                 violNames,
+			"vacuity":                               map[string]int{"cover_points": coversTotal, "satisfiable": coversReached},
+			"engine_notes":                          notes,
+			"total_obligations_all_props":           len(rd.obls),
+			"contract_file":                         rd.eng.cs.Path,
+			"contract_lines":                        rd.eng.cs.NLines,
 		},
 		"assumptions": assumptions,
 	}
